@@ -25,7 +25,10 @@
 #ifndef PHQ_UNIT_HPP
 #define PHQ_UNIT_HPP
 
+#include <cstddef>
 #include <functional>
+#include <initializer_list>
+#include <limits>
 #include <type_traits>
 #include <vector>
 
@@ -104,21 +107,90 @@ public:
   }
 };
 
+/// \brief Table of functions for converting a sequence of values between the standard unit of
+/// measure of a given type and any given unit of measure of that type, keyed by unit of measure.
+/// This is a literal type, such that tables of this type are constant-initialized; they can
+/// therefore be used safely during the dynamic initialization of other objects with static storage
+/// duration, regardless of initialization order. Internal implementation detail not intended to be
+/// used outside of the PhQ::ConvertInPlace and PhQ::Convert functions.
+template <typename Unit, typename NumericType>
+class ConversionTable {
+public:
+  /// \brief Signature of a function that converts a sequence of values in place.
+  using Function = void (*)(NumericType* values, const std::size_t size);
+
+  /// \brief Entry in this table: a unit of measure and its corresponding conversion function. The
+  /// member names mirror those of std::pair such that lookups read the same as with std::map.
+  struct Entry {
+    Unit first{};
+    Function second{nullptr};
+  };
+
+  /// \brief Maximum number of entries in this table: the number of distinct non-negative values of
+  /// the underlying type of the unit of measure enumeration.
+  static constexpr std::size_t Capacity{
+    static_cast<std::size_t>(std::numeric_limits<std::underlying_type_t<Unit>>::max()) + 1};
+
+  /// \brief Default constructor. Constructs an empty table.
+  constexpr ConversionTable() = default;
+
+  /// \brief Constructor. Constructs a table from a list of entries. If the same unit of measure
+  /// appears more than once, the first entry takes precedence.
+  constexpr ConversionTable(const std::initializer_list<Entry> list) {
+    for (const Entry& entry : list) {
+      if (count < Capacity) {
+        entries[count] = entry;
+        ++count;
+      }
+    }
+  }
+
+  /// \brief Returns a pointer to the entry for the given unit of measure, or end() if there is none.
+  [[nodiscard]] constexpr const Entry* find(const Unit unit) const noexcept {
+    for (std::size_t index = 0; index < count; ++index) {
+      if (entries[index].first == unit) {
+        return entries + index;
+      }
+    }
+    return end();
+  }
+
+  /// \brief Returns a pointer to the first entry in this table.
+  [[nodiscard]] constexpr const Entry* begin() const noexcept {
+    return entries;
+  }
+
+  /// \brief Returns a pointer to one past the last entry in this table.
+  [[nodiscard]] constexpr const Entry* end() const noexcept {
+    return entries + count;
+  }
+
+  /// \brief Returns the number of entries in this table.
+  [[nodiscard]] constexpr std::size_t size() const noexcept {
+    return count;
+  }
+
+private:
+  /// \brief Entries in this table, in order of insertion.
+  Entry entries[Capacity]{};
+
+  /// \brief Number of entries in this table.
+  std::size_t count{0};
+};
+
 /// \brief Abstract map of functions for converting a sequence of values expressed in the standard
 /// unit of measure of a given type to any given unit of measure of that type. Internal
 /// implementation detail not intended to be used outside of the PhQ::ConvertInPlace, PhQ::Convert,
 /// and PhQ::ConvertStatically functions.
 template <typename Unit, typename NumericType>
-inline const std::map<Unit, std::function<void(NumericType* values, const std::size_t size)>>
-    MapOfConversionsFromStandard;
+inline constexpr ConversionTable<Unit, NumericType> MapOfConversionsFromStandard{};
 
 /// \brief Abstract map of functions for converting a sequence of values expressed in any given unit
 /// of measure of a given type to the standard unit of measure of that type. Internal implementation
 /// detail not intended to be used outside of the PhQ::ConvertInPlace, PhQ::Convert, and
 /// PhQ::ConvertStatically functions.
 template <typename Unit, typename NumericType>
-inline const std::map<Unit, std::function<void(NumericType* values, const std::size_t size)>>
-    MapOfConversionsToStandard;
+inline constexpr ConversionTable<Unit, NumericType> MapOfConversionsToStandard{};
 
 }  // namespace Internal
 
